@@ -31,8 +31,24 @@ abbrev reach (asserts hasServices : Bool) (acts : List Act) : Chan := run assert
 theorem tie_locks : callInsertUnderLock = true ∧ respLookupUnderLock = true ∧ respRunOutsideLock = true ∧ callSendOutsideLock = true := by
   decide
 
+/-- the RESPONSE branch asserts nothing about the peer's message (T1: `respAssert` is re-extracted from
+`RpcChannel::onRpcMessage` on every run; with the `assert(has_response || has_error)` that finding C19-F1 was
+about, this theorem - and with it `complete_once` - does not compile) -/
+theorem assert_removed : ∀ a b : Bool, respAssert a b := fun _ _ => trivial
+
 section
 variable (asserts hs : Bool) (acts : List Act)
+
+/-- the model's process never stops: no assertion of the channel can fail on any input, in either flavour -/
+theorem never_halts : (reach asserts hs acts).halted = false ∧ Ev.abort ∉ (reach asserts hs acts).log := by
+  have hi : HaltInv (reach asserts hs acts) := HaltInv.run asserts hs acts
+  have hh : (reach asserts hs acts).halted = false := by
+    cases h : (reach asserts hs acts).halted with
+    | false => rfl
+    | true =>
+      obtain ⟨_, _, m, _, _, _, hw⟩ := hi.halt h
+      exact absurd (assert_removed _ _) hw
+  exact ⟨hh, hi.noAbort hh⟩
 
 /-- **ids_unique**: the ids handed out on a channel are pairwise distinct, for any number of calling
 threads; they are positive; a REQUEST frame carries the id of its call; two frames with the same id
@@ -83,15 +99,15 @@ theorem complete_with_own_response (post pre : List Ev) (k i : Nat) (v : Option 
   obtain ⟨m, mid, pre', a, b, c, d, e⟩ := ti.cause post pre k i v h
   exact ⟨m, mid, pre', a, b, c, by rw [d, view_eq], e⟩
 
-/-- **complete_once**, "exactly once if a response with its id arrives" (`_partial`: finding C19-F1, see
-`complete_once_full_false`).  A RESPONSE `m` arrives after the REQUEST frame of call `k` left with the id
-`m` carries.  Unless this is a build with `assert` and `m` has neither payload nor error: the closure of
-`k` has run exactly once (or the loop thread stands between its critical section and the completion of
-`k`); and if `m` is the first such response, the closure ran after this arrival with the payload of `m`
-(or the loop thread is about to run it with `m`) -/
-theorem complete_once_partial (post pre : List Ev) (m : Msg) (k : Nat)
+/-- **complete_once**, "exactly once if a response with its id arrives", in both build flavours and for
+every RESPONSE (with payload, unparsable payload, error, both, neither).  A RESPONSE `m` arrives after the
+REQUEST frame of call `k` left with the id `m` carries.  Then the closure of `k` has run exactly once (or
+the loop thread stands between its critical section and the completion of `k`); and if `m` is the first
+such response, the closure ran after this arrival with the payload of `m` (or the loop thread is about to
+run it with `m`) -/
+theorem complete_once (post pre : List Ev) (m : Msg) (k : Nat)
     (h : (reach asserts hs acts).log = post ++ Ev.arrived m :: pre) (ht : m.type = .RESPONSE)
-    (hs' : Ev.sent m.id k ∈ pre) (hw : asserts = false ∨ m.wellFormed) :
+    (hs' : Ev.sent m.id k ∈ pre) :
     (ranCount k (reach asserts hs acts).log = 1 ∨ ∃ m', (reach asserts hs acts).pending = some (k, m')) ∧
     (ranCount k pre = 0 →
       (Ev.ran k m.id (m.payload.bind Body.parse) ∈ post ∧ ranCount k (reach asserts hs acts).log = 1) ∨
@@ -99,8 +115,8 @@ theorem complete_once_partial (post pre : List Ev) (m : Msg) (k : Nat)
   have inv : CallInv (reach asserts hs acts) := CallInv.run asserts hs acts
   have ti : TraceInv (reach asserts hs acts) := TraceInv.run asserts hs acts
   have hle := (inv.once k).1
-  have hw' : (reach asserts hs acts).asserts = false ∨ m.wellFormed := by
-    rw [(run_consts asserts hs acts).1]; exact hw
+  have hw' : (reach asserts hs acts).asserts = false ∨ respAssert m.payload.isSome m.err.isSome :=
+    Or.inr (assert_removed _ _)
   have hfirst : ranCount k pre = 0 →
       (Ev.ran k m.id (m.payload.bind Body.parse) ∈ post ∧ ranCount k (reach asserts hs acts).log = 1) ∨
       (reach asserts hs acts).pending = some (k, m) := by
@@ -128,24 +144,15 @@ theorem complete_once_partial (post pre : List Ev) (m : Msg) (k : Nat)
       omega
     omega
 
-/-- in the NDEBUG build the statement holds for every RESPONSE -/
-theorem complete_once_ndebug (post pre : List Ev) (m : Msg) (k : Nat)
-    (h : (reach false hs acts).log = post ++ Ev.arrived m :: pre) (ht : m.type = .RESPONSE)
-    (hs' : Ev.sent m.id k ∈ pre) (hr : ranCount k pre = 0) :
-    (Ev.ran k m.id (m.payload.bind Body.parse) ∈ post ∧ ranCount k (reach false hs acts).log = 1) ∨
-    (reach false hs acts).pending = some (k, m) :=
-  (complete_once_partial false hs acts post pre m k h ht hs' (Or.inl rfl)).2 hr
-
 /-- **complete_once**, one message at a time: in any reachable state in which the loop thread is idle, a
 RESPONSE whose id is that of a registered call `k` that has not completed - whether its REQUEST frame has
 left already or not - completes exactly that call: the entry is erased, the payload is parsed into the
 response object of `k` (if the message has one), the closure of `k` runs once and sees the parsed payload,
-the response object is freed once; no other call is affected.  (`_partial` in the same sense as
-`complete_once_partial`: not in a build with `assert` when the message has neither payload nor error.) -/
-theorem response_completes_partial (m : Msg) (k : Nat) (ht : m.type = .RESPONSE)
-    (hh : (reach asserts hs acts).halted = false) (hp : (reach asserts hs acts).pending = none)
+the response object is freed once; no other call is affected -/
+theorem response_completes (m : Msg) (k : Nat) (ht : m.type = .RESPONSE)
+    (hp : (reach asserts hs acts).pending = none)
     (hk : Registered (reach asserts hs acts) k) (hid : (reach asserts hs acts).idOf k = m.id)
-    (hr : ranCount k (reach asserts hs acts).log = 0) (hw : asserts = false ∨ m.wellFormed) :
+    (hr : ranCount k (reach asserts hs acts).log = 0) :
     (reach asserts hs (acts ++ [.recv m, .finish])).log =
       Ev.free (.resp k) :: Ev.ran k m.id (m.payload.bind Body.parse) ::
         ((if m.payload.isSome then [Ev.parse k] else []) ++ Ev.arrived m :: (reach asserts hs acts).log) ∧
@@ -158,16 +165,13 @@ theorem response_completes_partial (m : Msg) (k : Nat) (ht : m.type = .RESPONSE)
   have inv : CallInv (reach asserts hs acts) := CallInv.run asserts hs acts
   have hlook : lookup m.id (reach asserts hs acts).outstanding = some k := by
     rw [← hid]; exact inv.reg k hk hr (by rw [hp]; simp)
-  have ha : (reach asserts hs acts).asserts = asserts := (run_consts asserts hs acts).1
+  have hh : (reach asserts hs acts).halted = false := (never_halts asserts hs acts).1
   have hrun : reach asserts hs (acts ++ [.recv m, .finish]) = step (step (reach asserts hs acts) (.recv m)) .finish := by
     simp [reach, run, List.foldl_append]
   rw [hrun]
-  generalize reach asserts hs acts = s at hh hp hlook ha ⊢
-  have hc : ¬ (s.asserts = true ∧ ¬ respAssert m.payload.isSome m.err.isSome) := by
-    rintro ⟨h1, h2⟩
-    rcases hw with h | h
-    · rw [ha, h] at h1; cases h1
-    · exact h2 ((respAssert_iff m).mpr h)
+  generalize reach asserts hs acts = s at hh hp hlook ⊢
+  have hc : ¬ (s.asserts = true ∧ ¬ respAssert m.payload.isSome m.err.isSome) :=
+    fun h => h.2 (assert_removed _ _)
   have h1 : step s (.recv m) = { s with outstanding := eraseKey m.id s.outstanding, pending := some (k, m), log := Ev.arrived m :: s.log } := by
     simp only [step, hh, recv, hp, (typeSwitch_response _).mpr ht, recvResponse, hlook, erases_eq]
     simp [hc]
@@ -192,23 +196,43 @@ theorem response_completes_partial (m : Msg) (k : Nat) (ht : m.type = .RESPONSE)
     rw [freeCount_cons_foreign j (Ev.arrived m) _ rfl] at this
     exact this
 
+/-- what a **bare RESPONSE** does (neither payload nor error - the message finding C19-F1 was about), in
+both flavours: it is an answer like any other; the call with its id completes, its closure runs once and
+finds the response object untouched (nothing is parsed into it), the object is freed once -/
+theorem bare_response_completes (m : Msg) (k : Nat) (ht : m.type = .RESPONSE)
+    (hbare : m.payload = none ∧ m.err = none)
+    (hp : (reach asserts hs acts).pending = none)
+    (hk : Registered (reach asserts hs acts) k) (hid : (reach asserts hs acts).idOf k = m.id)
+    (hr : ranCount k (reach asserts hs acts).log = 0) :
+    (reach asserts hs (acts ++ [.recv m, .finish])).log =
+      Ev.free (.resp k) :: Ev.ran k m.id none :: Ev.arrived m :: (reach asserts hs acts).log ∧
+    (reach asserts hs (acts ++ [.recv m, .finish])).halted = false ∧
+    ranCount k (reach asserts hs (acts ++ [.recv m, .finish])).log = 1 ∧
+    freeCount k (reach asserts hs (acts ++ [.recv m, .finish])).log = 1 := by
+  obtain ⟨h1, _, _, h4, h5⟩ := response_completes asserts hs acts m k ht hp hk hid hr
+  have inv : CallInv (reach asserts hs acts) := CallInv.run asserts hs acts
+  have hf0 : freeCount k (reach asserts hs acts).log = 0 :=
+    (inv.out ((reach asserts hs acts).idOf k) k (inv.reg k hk hr (by rw [hp]; simp))).2.2.2.1
+  refine ⟨?_, (never_halts asserts hs _).1, ?_, ?_⟩
+  · rw [h1]; simp [hbare.1]
+  · rw [h4 k, hr]; simp
+  · rw [h5 k, hf0]; simp
+
 /-- **no_foreign_completion**: the loop thread is idle and a RESPONSE arrives whose id is unknown (no
 registered call has it: never handed out, not inserted yet, foreign) or already consumed (the call with
-this id has completed).  Handling it (`recv` and the completion step) logs the arrival (and the abort, in
-the case of finding C19-F1) and nothing else - no closure runs, nothing is parsed into, nothing is freed -
-and `outstandings_` is left as it was -/
+this id has completed).  Handling it (`recv` and the completion step) logs the arrival and nothing else -
+no closure runs, nothing is parsed into, nothing is freed - and `outstandings_` is left as it was -/
 theorem no_foreign_completion (m : Msg) (ht : m.type = .RESPONSE)
     (hp : (reach asserts hs acts).pending = none)
     (hun : ∀ k, Registered (reach asserts hs acts) k → (reach asserts hs acts).idOf k = m.id →
       1 ≤ ranCount k (reach asserts hs acts).log) :
-    ((reach asserts hs (acts ++ [.recv m, .finish])).log = (reach asserts hs acts).log ∨
-     (reach asserts hs (acts ++ [.recv m, .finish])).log = Ev.arrived m :: (reach asserts hs acts).log ∨
-     (reach asserts hs (acts ++ [.recv m, .finish])).log = Ev.abort :: Ev.arrived m :: (reach asserts hs acts).log) ∧
+    (reach asserts hs (acts ++ [.recv m, .finish])).log = Ev.arrived m :: (reach asserts hs acts).log ∧
     (reach asserts hs (acts ++ [.recv m, .finish])).outstanding = (reach asserts hs acts).outstanding ∧
     (reach asserts hs (acts ++ [.recv m, .finish])).pending = none ∧
     (∀ k, ranCount k (reach asserts hs (acts ++ [.recv m, .finish])).log = ranCount k (reach asserts hs acts).log) ∧
     (∀ k, freeCount k (reach asserts hs (acts ++ [.recv m, .finish])).log = freeCount k (reach asserts hs acts).log) := by
   have inv : CallInv (reach asserts hs acts) := CallInv.run asserts hs acts
+  have hh : (reach asserts hs acts).halted = false := (never_halts asserts hs acts).1
   have hlook : lookup m.id (reach asserts hs acts).outstanding = none := by
     cases hl : lookup m.id (reach asserts hs acts).outstanding with
     | none => rfl
@@ -219,32 +243,17 @@ theorem no_foreign_completion (m : Msg) (ht : m.type = .RESPONSE)
   have hrun : reach asserts hs (acts ++ [.recv m, .finish]) = step (step (reach asserts hs acts) (.recv m)) .finish := by
     simp [reach, run, List.foldl_append]
   rw [hrun]
-  generalize reach asserts hs acts = s at hp hlook ⊢
-  have key : (step (step s (.recv m)) .finish = s) ∨
-      (step (step s (.recv m)) .finish = { s with log := Ev.arrived m :: s.log }) ∨
-      (step (step s (.recv m)) .finish = { s with halted := true, log := Ev.abort :: Ev.arrived m :: s.log }) := by
-    by_cases hh : s.halted = true
-    · left; rw [step_halted s _ hh, step_halted s _ hh]
-    · have hh' : s.halted = false := by simpa using hh
-      by_cases hc : s.asserts = true ∧ ¬ respAssert m.payload.isSome m.err.isSome
-      · right; right
-        have h1 : step s (.recv m) = { s with halted := true, log := Ev.abort :: Ev.arrived m :: s.log } := by
-          simp [step, hh', recv, hp, (typeSwitch_response _).mpr ht, recvResponse, hc]
-        rw [h1, step_halted _ _ rfl]
-      · right; left
-        have h1 : step s (.recv m) = { s with log := Ev.arrived m :: s.log } := by
-          simp only [step, hh', recv, hp, (typeSwitch_response _).mpr ht, recvResponse, hlook]
-          simp [hc]
-        rw [h1]
-        simp [step, hh', finish, hp]
-  rcases key with h | h | h <;> rw [h]
-  · exact ⟨Or.inl rfl, rfl, hp, fun _ => rfl, fun _ => rfl⟩
-  · exact ⟨Or.inr (Or.inl rfl), rfl, hp, fun k => ranCount_cons_foreign k _ _ rfl, fun k => freeCount_cons_foreign k _ _ rfl⟩
-  · refine ⟨Or.inr (Or.inr rfl), rfl, hp, fun k => ?_, fun k => ?_⟩
-    · show ranCount k (Ev.abort :: Ev.arrived m :: s.log) = ranCount k s.log
-      rw [ranCount_cons_foreign k _ _ rfl, ranCount_cons_foreign k _ _ rfl]
-    · show freeCount k (Ev.abort :: Ev.arrived m :: s.log) = freeCount k s.log
-      rw [freeCount_cons_foreign k _ _ rfl, freeCount_cons_foreign k _ _ rfl]
+  generalize reach asserts hs acts = s at hp hh hlook ⊢
+  have hc : ¬ (s.asserts = true ∧ ¬ respAssert m.payload.isSome m.err.isSome) :=
+    fun h => h.2 (assert_removed _ _)
+  have h1 : step s (.recv m) = { s with log := Ev.arrived m :: s.log } := by
+    simp only [step, hh, recv, hp, (typeSwitch_response _).mpr ht, recvResponse, hlook]
+    simp [hc]
+  have h2 : step (step s (.recv m)) .finish = { s with log := Ev.arrived m :: s.log } := by
+    rw [h1]
+    simp [step, hh, finish, hp]
+  rw [h2]
+  exact ⟨rfl, rfl, hp, fun k => ranCount_cons_foreign k _ _ rfl, fun k => freeCount_cons_foreign k _ _ rfl⟩
 
 /-- **no double free, no use after free** (the heap-cell events of the model): the response object of a
 call is freed at most once - exactly when its closure has run -; after the free no event touches it (no
@@ -372,19 +381,6 @@ theorem requests_numbered :
   subst a
   exact ⟨hlt, b, c⟩
 
-/-- the process stops only for the reason of finding C19-F1: a build with `assert`, and the last message
-was a RESPONSE with neither payload nor error; `abort` is logged exactly then -/
-theorem halts_only_on_bare_response :
-    ((reach asserts hs acts).halted = true → asserts = true ∧
-      ∃ m rest, (reach asserts hs acts).log = Ev.abort :: Ev.arrived m :: rest ∧ m.type = .RESPONSE ∧ ¬ m.wellFormed) ∧
-    ((reach asserts hs acts).halted = false → Ev.abort ∉ (reach asserts hs acts).log) := by
-  have hi : HaltInv (reach asserts hs acts) := HaltInv.run asserts hs acts
-  refine ⟨?_, hi.noAbort⟩
-  intro h
-  obtain ⟨a, _, b⟩ := hi.halt h
-  rw [(run_consts asserts hs acts).1] at a
-  exact ⟨a, b⟩
-
 end
 
 /-- what `expected` says, case by case: no services or unknown service → NO_SERVICE; unknown method →
@@ -418,16 +414,7 @@ theorem server_channels (asserts : Bool) (ops : List SrvOp) :
     obtain ⟨acts, ha⟩ := h.reach e (List.mem_of_find?_eq_some hf)
     exact ⟨acts, by rw [← hc]; exact ha⟩
 
-/-! ### finding C19-F1: a bare RESPONSE aborts an asserts-on build -/
-
-/-- the full statement of "exactly once when a response with its id arrives": no hypothesis on the build
-flavour or on the message -/
-def complete_once_full : Prop :=
-  ∀ (asserts hs : Bool) (acts : List Act) (post pre : List Ev) (m : Msg) (k : Nat),
-    (reach asserts hs acts).log = post ++ Ev.arrived m :: pre → m.type = .RESPONSE →
-    Ev.sent m.id k ∈ pre → ranCount k pre = 0 →
-    (Ev.ran k m.id (m.payload.bind Body.parse) ∈ post ∧ ranCount k (reach asserts hs acts).log = 1) ∨
-    (reach asserts hs acts).pending = some (k, m)
+/-! ### finding C19-F1 (repaired): a bare RESPONSE used to abort an asserts-on build -/
 
 /-- corpus/C19/F1-bare-response-asserts.case (and bare-response-ndebug.case): two calls; a RESPONSE for
 id 1 with neither payload nor error; a good RESPONSE for id 2 -/
@@ -436,74 +423,48 @@ def f1Acts : List Act :=
    .recv { type := .RESPONSE, id := 1 }, .finish,
    .recv { type := .RESPONSE, id := 2, payload := some (.ok 5) }, .finish]
 
-/-- the witness on the model: with `assert` the process halts at the bare RESPONSE, neither call ever
-completes, both stay registered; without, both complete once, the first with an untouched response object -/
-theorem f1_witness :
-    (reach true false f1Acts).halted = true ∧
-    ranCount 0 (reach true false f1Acts).log = 0 ∧ ranCount 1 (reach true false f1Acts).log = 0 ∧
-    (reach true false f1Acts).outstanding = [(2, 1), (1, 0)] ∧
-    (reach true false f1Acts).log =
-      [.abort, .arrived { type := .RESPONSE, id := 1 }, .sent 2 1, .sent 1 0] ∧
-    (reach false false f1Acts).halted = false ∧
-    Ev.ran 0 1 none ∈ (reach false false f1Acts).log ∧ Ev.ran 1 2 (some 5) ∈ (reach false false f1Acts).log ∧
-    ranCount 0 (reach false false f1Acts).log = 1 ∧ ranCount 1 (reach false false f1Acts).log = 1 ∧
-    (reach false false f1Acts).outstanding = [] := by
-  decide
-
-/-- **negation witness**: the full statement is false on the code as it is -/
-theorem complete_once_full_false : ¬ complete_once_full := by
-  intro h
-  have := h true false f1Acts [.abort] [.sent 2 1, .sent 1 0] { type := .RESPONSE, id := 1 } 0
-    (by decide) rfl (by decide) (by decide)
-  revert this
-  decide
-
-/-- the defect in general: whenever the loop thread is idle in a build with `assert`, a RESPONSE with
-neither payload nor error - whatever its id - stops the process: nothing is erased, and from then on no
-step does anything, so no outstanding call completes any more -/
-theorem bare_response_aborts (hs : Bool) (acts rest : List Act) (m : Msg)
-    (hn : (reach true hs acts).halted = false) (hp : (reach true hs acts).pending = none)
-    (ht : m.type = .RESPONSE) (hw : ¬ m.wellFormed) :
-    (reach true hs (acts ++ .recv m :: rest)).halted = true ∧
-    (reach true hs (acts ++ .recv m :: rest)).log = Ev.abort :: Ev.arrived m :: (reach true hs acts).log ∧
-    (reach true hs (acts ++ .recv m :: rest)).outstanding = (reach true hs acts).outstanding ∧
-    (∀ k, ranCount k (reach true hs (acts ++ .recv m :: rest)).log = ranCount k (reach true hs acts).log) := by
-  have ha : (reach true hs acts).asserts = true := (run_consts true hs acts).1
-  obtain ⟨h1, h2, h3⟩ := bare_response_halts (reach true hs acts) m hn hp ha ht hw
-  have hrun : reach true hs (acts ++ .recv m :: rest) = rest.foldl step (step (reach true hs acts) (.recv m)) := by
-    simp [reach, run, List.foldl_append]
-  rw [hrun, foldl_halted rest _ h1]
-  refine ⟨h1, h2, h3, ?_⟩
-  intro k
-  rw [h2, ranCount_cons_foreign k _ _ rfl, ranCount_cons_foreign k _ _ rfl]
+/-- the witness of the old defect on the model, now in both flavours alike: nothing halts, both calls
+complete once - the first with an untouched response object -, nothing stays registered -/
+theorem f1_witness_passes (asserts : Bool) :
+    (reach asserts false f1Acts).halted = false ∧
+    Ev.ran 0 1 none ∈ (reach asserts false f1Acts).log ∧ Ev.ran 1 2 (some 5) ∈ (reach asserts false f1Acts).log ∧
+    ranCount 0 (reach asserts false f1Acts).log = 1 ∧ ranCount 1 (reach asserts false f1Acts).log = 1 ∧
+    (reach asserts false f1Acts).outstanding = [] := by
+  cases asserts <;> decide
 
 /-! ### the hypotheses are satisfiable, the statements are not vacuous -/
 
-/-- `complete_once_partial` on the NDEBUG run of the corpus case: the second call is completed by the
-response with id 2, with payload 5 -/
-example : ∃ post pre m k, (reach false false f1Acts).log = post ++ Ev.arrived m :: pre ∧ m.type = .RESPONSE ∧
+/-- `complete_once` on the corpus case in the build with `assert`: the first call is completed by the bare
+response with id 1 (the closure sees nothing), the second by the response with id 2, with payload 5 -/
+example : ∃ post pre m k, (reach true false f1Acts).log = post ++ Ev.arrived m :: pre ∧ m.type = .RESPONSE ∧
+    Ev.sent m.id k ∈ pre ∧ ranCount k pre = 0 ∧ ¬ m.wellFormed ∧ Ev.ran k m.id none ∈ post :=
+  ⟨[.free (.resp 1), .ran 1 2 (some 5), .parse 1, .arrived { type := .RESPONSE, id := 2, payload := some (.ok 5) },
+     .free (.resp 0), .ran 0 1 none],
+    [.sent 2 1, .sent 1 0], { type := .RESPONSE, id := 1 }, 0,
+    by decide, rfl, by decide, by decide, by decide, by decide⟩
+
+example : ∃ post pre m k, (reach true false f1Acts).log = post ++ Ev.arrived m :: pre ∧ m.type = .RESPONSE ∧
     Ev.sent m.id k ∈ pre ∧ ranCount k pre = 0 ∧ m.wellFormed ∧ Ev.ran k m.id (some 5) ∈ post :=
   ⟨[.free (.resp 1), .ran 1 2 (some 5), .parse 1],
     [.free (.resp 0), .ran 0 1 none, .arrived { type := .RESPONSE, id := 1 }, .sent 2 1, .sent 1 0],
     { type := .RESPONSE, id := 2, payload := some (.ok 5) }, 1,
     by decide, rfl, by decide, by decide, by decide, by decide⟩
 
-/-- `response_completes_partial` applies to a call that is inserted but whose REQUEST frame has not left
-yet (the peer guessed the id), in the build with `assert`, for a RESPONSE that carries an error only -/
+/-- `response_completes` / `bare_response_completes` apply to a call that is inserted but whose REQUEST
+frame has not left yet (the peer guessed the id) -/
 example : Registered (reach true false [.callBegin, .callInsert 0]) 0 ∧
     (reach true false [.callBegin, .callInsert 0]).idOf 0 = 1 ∧
     ranCount 0 (reach true false [.callBegin, .callInsert 0]).log = 0 ∧
     (reach true false [.callBegin, .callInsert 0]).pending = none ∧
     (reach true false [.callBegin, .callInsert 0]).halted = false ∧
-    Ev.sent 1 0 ∉ (reach true false [.callBegin, .callInsert 0]).log ∧
-    Msg.wellFormed { type := .RESPONSE, id := 1, err := some 6 } := by
+    Ev.sent 1 0 ∉ (reach true false [.callBegin, .callInsert 0]).log := by
   decide
 
 /-- a duplicate of an answered id and an id that was never handed out satisfy the hypothesis of
 `no_foreign_completion` -/
-example : (reach false false f1Acts).pending = none ∧
-    ∀ i, i = 2 ∨ i = 7 → ∀ k, k < 2 → Registered (reach false false f1Acts) k → (reach false false f1Acts).idOf k = i →
-      1 ≤ ranCount k (reach false false f1Acts).log := by
+example : (reach true false f1Acts).pending = none ∧
+    ∀ i, i = 2 ∨ i = 7 → ∀ k, k < 2 → Registered (reach true false f1Acts) k → (reach true false f1Acts).idOf k = i →
+      1 ≤ ranCount k (reach true false f1Acts).log := by
   refine ⟨by decide, ?_⟩
   intro i hi k hk
   have : k = 0 ∨ k = 1 := by omega
